@@ -167,4 +167,55 @@ theorem internalMerge_spec {v : Variant} {s sk : Sketch Rat} {d : Draws Rat}
     refine ⟨core_congr b1 rfl hcum.symm rfl, trivial, trivial, b3, ?_, b6⟩
     rw [b5, l8]
 
+/-- `a.merge(b)` for two non-empty well-formed sketches, whichever is heavier. -/
+theorem mergeSk_live {v : Variant} {a b : Sketch Rat} {d : Draws Rat}
+    (ha : Core P a a.wtMax a.k) (ha1 : 1 ≤ a.k) (hb : Core P b b.wtMax b.k) (hb1 : 1 ≤ b.k) (hd : UnitOK v.geDraw d) :
+    Core P (mergeSk v a b d).1 (max a.wtMax b.wtMax) (min a.k b.k) ∧
+    (mergeSk v a b d).1.cumWt = a.cumWt + b.cumWt ∧
+    (mergeSk v a b d).1.n = a.n + b.n ∧
+    (mergeSk v a b d).1.k = min a.k b.k ∧
+    (v.mergeSetsWtMax = true → (mergeSk v a b d).1.wtMax = max a.wtMax b.wtMax) ∧
+    UnitOK v.geDraw (mergeSk v a b d).2 := by
+  have hbw := hb.wpos
+  have haw := ha.wpos
+  unfold mergeSk
+  have h0 : Num.eq b.cumWt (zero : Rat) = false := by simp [ne_of_gt hbw]
+  have h1 : Num.eq a.cumWt (zero : Rat) = false := by simp [ne_of_gt haw]
+  simp only [h0, h1, Bool.and_false, rat_lt, decide_eq_true_eq, Bool.false_eq_true, if_false]
+  by_cases hlt : a.cumWt < b.cumWt
+  · rw [if_pos hlt]
+    obtain ⟨m1, m2, m3, m4, m5, m6⟩ := internalMerge_spec (v := v) hb hb1 ha ha1 (le_of_lt hlt) hd
+    rw [max_comm, min_comm]
+    refine ⟨m1, by rw [m2]; ring, by rw [m3]; omega, m4, fun hf => ?_, m6⟩
+    rw [m5, hf]; simp
+  · rw [if_neg hlt]
+    obtain ⟨m1, m2, m3, m4, m5, m6⟩ := internalMerge_spec (v := v) ha ha1 hb hb1 (not_lt.1 hlt) hd
+    refine ⟨m1, m2, m3, m4, fun hf => ?_, m6⟩
+    rw [m5, hf]; simp
+
+/-! ### reading the sample -/
+
+/-- `get_result()` returns the full items and, depending on the draw, the partial item: `⌊c⌋` or `⌊c⌋ + 1` items (the
+latter only when `c` is not integral), all of them satisfying `P`. -/
+theorem getSample_spec {s : Sample Rat} (hs : SInv P s) (d : Draws Rat) :
+    (((getSample s d).1.length : Int) = s.c.floor ∨
+      (((s.c.floor : Int) : Rat) < s.c ∧ ((getSample s d).1.length : Int) = s.c.floor + 1)) ∧
+    ∀ x ∈ (getSample s d).1, P x := by
+  have e : getSample s d = (if Num.lt d.unit.1 (frac s.c) then (s.data ++ s.part.toList, d.unit.2) else (s.data, d.unit.2)) := rfl
+  rw [e]
+  simp only [rat_lt, frac, rat_floor, decide_eq_true_eq]
+  split
+  · rename_i hlt
+    cases hpart : s.part with
+    | none => simp only [Option.toList_none, List.append_nil]; exact ⟨Or.inl hs.len, hs.dataP⟩
+    | some p =>
+      have hfr := hs.part.1 (by rw [hpart]; rfl)
+      refine ⟨Or.inr ⟨hfr, by simp [hs.len]⟩, ?_⟩
+      intro x hx
+      simp only [Option.toList_some, List.mem_append, List.mem_singleton] at hx
+      rcases hx with h | h
+      · exact hs.dataP x h
+      · exact hs.partP x (by rw [hpart, h]; simp)
+  · exact ⟨Or.inl hs.len, hs.dataP⟩
+
 end DS.Ebpps
